@@ -1,6 +1,6 @@
 #!/bin/bash
-# usage: tools/seed5_eval.sh <Cxx> <A|B> : wave-5 seeds (two per agent): confirm change X of /tmp/seed5-<Cxx> in the scratch worktree /tmp/wt5-<Cxx>, then run our quick check on a scratch copy of /repo
-P=$1; X=$2; WT=/tmp/wt5-$P; SD=/tmp/seed5-$P
+# usage: tools/seed5_eval.sh <Cxx> <A|B> [wave] : wave-5 seeds (two per agent): confirm change X of /tmp/seed5-<Cxx> in the scratch worktree /tmp/wt5-<Cxx>, then run our quick check on a scratch copy of /repo
+P=$1; X=$2; W=${3:-5}; WT=/tmp/wt$W-$P; SD=/tmp/seed$W-$P
 [ -s $SD/$X.diff ] || { echo "no $X.diff"; exit 2; }
 [ -f $SD/demo_$X.py ] || { echo "no demo_$X.py"; exit 2; }
 git -C $WT checkout -q -- . ; git -C $WT clean -fdq src tests 2>/dev/null
